@@ -169,6 +169,41 @@ def ops(p):
             if not refs_to(p, n, prm["n"]) and n != top:
                 out.append(("remove_output:%s.%s" % (n, prm["n"]), ["--remove-output", "%s.%s" % (n, prm["n"])],
                             {"removed_output": (n, prm["n"])}))
+    # several operations in one invocation: a callable that is called under an alias is renamed,
+    # and a later operation has to find its calls again
+    aliased = sorted({c["callee"] for pl in p["pipelines"] for c in pl["calls"] if c["id"] != c["callee"]})
+    for n in aliased:
+        c = callable_of(p, n)
+        for prm in c["outs"][:2]:
+            out.append(("rename_then_rename_output:%s.%s" % (n, prm["n"]),
+                        ["--rename", "%s=%s_NEW" % (n, n), "--rename-output", "%s_NEW.%s=%s_o" % (n, prm["n"], prm["n"])],
+                        {"callable": (n, n + "_NEW"), "output": (n, prm["n"], prm["n"] + "_o"), "combined": True}))
+        for prm in c["ins"][:1]:
+            out.append(("rename_then_rename_input:%s.%s" % (n, prm["n"]),
+                        ["--rename", "%s=%s_NEW" % (n, n), "--rename-input", "%s_NEW.%s=%s_i" % (n, prm["n"], prm["n"])],
+                        {"callable": (n, n + "_NEW"), "input": (n, prm["n"], prm["n"] + "_i"), "combined": True}))
+        for prm in c["outs"]:
+            if not refs_to(p, n, prm["n"]) and n != top:
+                out.append(("rename_then_remove_output:%s.%s" % (n, prm["n"]),
+                            ["--rename", "%s=%s_NEW" % (n, n), "--remove-output", "%s_NEW.%s" % (n, prm["n"])],
+                            {"callable": (n, n + "_NEW"), "removed_output": (n, prm["n"]), "combined": True}))
+    # two callables renamed in one invocation, the second being one whose calls (or whose body)
+    # the edits of the first refer to
+    pairs = []
+    for pl in p["pipelines"]:
+        ids = {c["id"]: c for c in pl["calls"]}
+        for c in pl["calls"]:
+            for b in c["binds"]:
+                e = b["e"]["e"] if b["e"]["k"] == "split" else b["e"]
+                if e["k"] == "ref" and e["call"] in ids and ids[e["call"]]["id"] == ids[e["call"]]["callee"] and c["id"] == c["callee"]:
+                    pairs.append((ids[e["call"]]["callee"], c["callee"]))
+        for c in pl["calls"]:
+            if pl["name"] != top and c["id"] == c["callee"]:
+                pairs.append((c["callee"], pl["name"]))
+    for a, b in sorted(set(pairs))[:4]:
+        if a != b:
+            out.append(("rename_two:%s+%s" % (a, b), ["--rename", "%s=%s_NEW,%s=%s_NEW" % (a, a, b, b)],
+                        {"callable": (a, a + "_NEW"), "callable2": (b, b + "_NEW"), "combined": True}))
     out.append(("remove_unused_calls", ["--remove-unused-calls", "--top-calls", top], {"unused": True}))
     out.append(("remove_unused_outputs", ["--top-calls", top], {"unused": True}))
     return out
